@@ -163,7 +163,8 @@ def check(prog, rep, rule, floor=30):
             if n['k'] == 'MemberExpr' and n.get('dk') == 'Field' and 'basic_string<' in f.type(n):
                 members.add(n['m'])
         if len(members) != 1:
-            raise AnalysisBroken('%s: %s::UnescapeValue does not use exactly one string member as its output buffer (%s)' % (rule, cls, sorted(members)))
+            rep.defer_broken('%s: %s::UnescapeValue does not use exactly one string member as its output buffer (%s)' % (rule, cls, sorted(members)))
+            continue
         buf_member = members.pop()
         for text in ORIGINALS:
             cell = '"' + text.replace('"', '""') + '"'
